@@ -18,6 +18,7 @@ const (
 	vpSFCleanup
 	vpWaitAfterSend
 	vpSecWritten
+	vpBufBetweenLoads
 )
 
 func verifPoint(id int) {}
